@@ -6,7 +6,7 @@
     The symbol entropy coder (property C08) is a parameter of this file: [enc_syms method level nc syms]
     and [dec_syms n nc bytes]; the theorems assume exactly its round-trip law, which
     Model/SymbolCoding.v's coder is proved to satisfy. *)
-From Draco Require Import Base.Codec Base.Float32 Gen.Constants Model.Varint Model.Wrap Model.Quantize.
+From Draco Require Import Base.Codec Base.Float32 Gen.Constants Model.Varint Model.Wrap Model.Quantize Model.Octahedron.
 Local Open Scope Z_scope.
 
 Fixpoint map2 {A B C} (f : A -> B -> C) (a : list A) (b : list B) : list C :=
@@ -174,6 +174,172 @@ Section SeqAttr.
               end
             else Some (rows_of nc vals, r4)
           end
+        end
+      end
+    end.
+
+  (** ** Quantized normals: SequentialNormalAttributeEncoder / Decoder on the 2-component portable points.
+      The encoder's prediction scheme is always the delta predictor (no corner table in the sequential
+      methods; MESH_PREDICTION_GEOMETRIC_NORMAL falls back to it) with
+      PredictionSchemeNormalOctahedronCanonicalizedEncodingTransform, or none at all when the option
+      prediction_scheme is neither DIFFERENCE nor GEOMETRIC_NORMAL (CreateIntPredictionScheme returns nullptr).
+      AreCorrectionsPositive() is true for the octahedral transforms: no zig-zag when a scheme exists. *)
+
+  (** the compressed-or-raw symbol part shared by all integer-like coders (decoder side) *)
+  Definition dec_sym_body (nv nc : nat) (r1 : bytes) : option (list Z * bytes) :=
+    match r1 with
+    | [] => None
+    | comp :: r2 =>
+      if comp >? 0 then dec_syms nv nc r2
+      else match r2 with
+           | [] => None
+           | nb :: r3 =>
+             if nb =? 4 then dec_raw_vals nv 4 r3
+             else if 4 * Z.of_nat nv <? nb * Z.of_nat nv then None
+             else if Z.of_nat (length r3) <? nb * Z.of_nat nv then None
+             else dec_raw_vals nv (Z.to_nat nb) r3
+           end
+    end.
+  (** ... and encoder side: [1] ++ EncodeSymbols, or [0; num_bytes] ++ raw values *)
+  Definition enc_sym_body (o : int_opts) (nc : nat) (syms : list Z) : option bytes :=
+    if io_builtin o then
+      match enc_syms (io_method o) (io_level o) (Z.of_nat nc) syms with
+      | Some body => Some ([1] ++ body)
+      | None => None
+      end
+    else
+      let nb := raw_num_bytes syms in
+      Some ([0; nb] ++ concat (map (enc_le (Z.to_nat nb)) syms)).
+
+  Definition flat_pts (l : list pt) : list Z := concat (map (fun p => [fst p; snd p]) l).
+  Fixpoint pairs (l : list Z) : list pt :=
+    match l with
+    | a :: b :: r => (a, b) :: pairs r
+    | _ => []
+    end.
+
+  (** PredictionSchemeDeltaEncoder::ComputeCorrectionValues with the canonicalized octahedral transform *)
+  Fixpoint oct_delta_corr (b : obox) (prev : pt) (pts : list pt) : list pt :=
+    match pts with
+    | [] => []
+    | p :: r => oct_canon_enc b p prev :: oct_delta_corr b p r
+    end.
+
+  (** ComputeOriginalValue of the canonicalized decoding transform as the machine executes it: the C++ does the
+      translations and the rotations in int32_t; on hostile streams these can overflow (undefined behaviour,
+      see [oct_canon_dec_no_ub]); the build wraps (two's complement), which [oct_canon_dec_w] spells out.
+      Wherever no overflow occurs it is Model/Octahedron.v's [oct_canon_dec]. *)
+  Definition wneg (x : Z) : Z := Wrap.to_i32 (- x).
+  Definition rotate_point_w (p : pt) (k : Z) : pt :=
+    let '(x, y) := p in
+    if k =? 1 then (y, wneg x)
+    else if k =? 2 then (wneg x, wneg y)
+    else if k =? 3 then (wneg y, x)
+    else p.
+  Definition oct_canon_dec_w (b : obox) (pred corr : pt) : pt :=
+    let c := ob_center b in
+    let pred := (Wrap.to_i32 (fst pred - c), Wrap.to_i32 (snd pred - c)) in
+    let ind := is_in_diamond b (fst pred) (snd pred) in
+    let pred := if ind then pred else invert_diamond b pred in
+    let bl := is_in_bottom_left pred in
+    let k := rotation_count pred in
+    let pred := if bl then pred else rotate_point_w pred k in
+    let orig := (mod_max b (add_as_unsigned (fst pred) (fst corr)),
+                 mod_max b (add_as_unsigned (snd pred) (snd corr))) in
+    let orig := if bl then orig else rotate_point_w orig (Z.rem (4 - k) 4) in
+    let orig := if ind then orig else invert_diamond b orig in
+    (Wrap.to_i32 (fst orig + c), Wrap.to_i32 (snd orig + c)).
+  Definition oct_dec_step (b : obox) (pred corr : pt) : pt :=
+    if oct_canon_dec_no_ub b pred corr then oct_canon_dec b pred corr else oct_canon_dec_w b pred corr.
+
+  (** PredictionSchemeDeltaDecoder::ComputeOriginalValues, [step] = the transform's ComputeOriginalValue *)
+  Fixpoint oct_delta_orig (step : pt -> pt -> pt) (prev : pt) (corrs : list pt) : list pt :=
+    match corrs with
+    | [] => []
+    | c :: r => let o := step prev c in o :: oct_delta_orig step o r
+    end.
+
+  (** SequentialIntegerAttributeEncoder::EncodeValues as inherited by the normal encoder, on the portable points;
+      [q] = the option quantization_bits (the transform is built with max_quantized_value (1 << q) - 1; for the
+      q that PrepareValues accepts, 2..30, this is SetQuantizationBits(q)).  EncodeTransformData writes
+      max_quantized_value and center_value as int32. *)
+  Definition enc_norm_block (o : int_opts) (q : Z) (pts : list pt) : option bytes :=
+    match pts with
+    | [] => Some []
+    | _ =>
+      match set_quantization_bits q with
+      | None => None
+      | Some b =>
+        let '(hdr, syms, tail) :=
+          match io_pred o with
+          | PNone => ([byte_of_i8 PREDICTION_NONE_], map (zigzag_enc 32) (flat_pts pts), [])
+          | PDelta =>
+              ([byte_of_i8 PREDICTION_DIFFERENCE_; byte_of_i8 PREDICTION_TRANSFORM_NORMAL_OCTAHEDRON_CANONICALIZED_],
+               map (fun v => v mod 2 ^ 32) (flat_pts (oct_delta_corr b (0, 0) pts)),
+               enc_le 4 (ob_mqv b mod 2 ^ 32) ++ enc_le 4 (ob_center b mod 2 ^ 32))
+          end in
+        match enc_sym_body o 2 syms with
+        | Some body => Some (hdr ++ body ++ tail)
+        | None => None
+        end
+      end
+    end.
+
+  (** SequentialNormalAttributeDecoder: DecodeValues / DecodeIntegerValues with GetNumValueComponents() = 2 for [n]
+      entries.  [ver] = bitstream version (major * 256 + minor): the legacy octahedral transform reads the
+      center value only below 2.2.  Transform types other than the two octahedral ones create no scheme. *)
+  Definition dec_norm_block (ver : Z) (n : nat) (bs : bytes) : option (list pt * bytes) :=
+    match bs with
+    | [] => None
+    | pmb :: r0 =>
+      let pm := i8_of_byte pmb in
+      if (pm <? PREDICTION_NONE_) || (pm >=? NUM_PREDICTION_SCHEMES_) then None else
+      let hdr :=
+        if pm =? PREDICTION_NONE_ then Some (PREDICTION_TRANSFORM_NONE_, r0)
+        else match r0 with
+             | [] => None
+             | ttb :: r1 =>
+               let tt := i8_of_byte ttb in
+               if (tt <? PREDICTION_TRANSFORM_NONE_) || (tt >=? NUM_PREDICTION_SCHEME_TRANSFORM_TYPES_) then None
+               else Some (tt, r1)
+             end in
+      match hdr with
+      | None => None
+      | Some (tt, r1) =>
+        if (n =? 0)%nat then None else      (* GetPortableAttributeData() == nullptr for 0 entries *)
+        match dec_sym_body (n * 2) 2 r1 with
+        | None => None
+        | Some (syms, r4) =>
+          if tt =? PREDICTION_TRANSFORM_NORMAL_OCTAHEDRON_CANONICALIZED_ then
+            match dec_le 4 r4 with
+            | None => None
+            | Some (mqv, r5) =>
+              match dec_le 4 r5 with
+              | None => None
+              | Some (_, r6) =>
+                match oct_canon_dec_init (i32_of_u32 mqv) with
+                | None => None
+                | Some b => Some (oct_delta_orig (oct_dec_step b) (0, 0) (pairs (map i32_of_u32 syms)), r6)
+                end
+              end
+            end
+          else if tt =? PREDICTION_TRANSFORM_NORMAL_OCTAHEDRON_ then
+            match dec_le 4 r4 with
+            | None => None
+            | Some (mqv, r5) =>
+              let cr := if ver <? bitstream_version_2_2 then
+                          match dec_le 4 r5 with Some (_, r6) => Some r6 | None => None end
+                        else Some r5 in
+              match cr with
+              | None => None
+              | Some r6 =>
+                match set_max_quantized_value (i32_of_u32 mqv) with
+                | None => None
+                | Some b => Some (oct_delta_orig (oct_dec b) (0, 0) (pairs (map i32_of_u32 syms)), r6)
+                end
+              end
+            end
+          else Some (pairs (map (zigzag_dec 32) syms), r4)
         end
       end
     end.
